@@ -92,7 +92,10 @@ fn supported_query(r: &mut Rng, cat: &Catalog) -> String {
     let lit = || -> String { "0".into() };
     let _ = lit;
     let num_lit = *r.pick(&["0", "1", "-1", "2", "0.5", "1e10", "9223372036854775807", "-9223372036854775808", "0.0"]);
-    match r.below(34) {
+    match r.below(36) {
+        // bare columns next to aggregates (read as FIRST(column)): with and without being grouping keys
+        34 => format!("SELECT {}, SUM({}) AS s FROM {}", q(c1), q(c2), t.name),
+        35 => format!("SELECT {}, {}, SUM({}) AS s, COUNT(*) AS n FROM {} GROUP BY {}", q(c1), q(c2), q(c3), t.name, q(c1)),
         30 | 31 => {
             // aggregates of arithmetic over (possibly unbounded) columns: the range arithmetic must stay inside the domain
             let op = *r.pick(&["+", "-", "*", "/"]);
